@@ -28,6 +28,8 @@ def sem(o):
         h = o[0]
         if h == "num":
             return Poly.const(o[1])
+        if h in ("zeros", "zeros_like") and len(o) == 1:
+            return Poly.const(0)         # an accumulator started at zero (Vector.dot)
         if h == "op":
             _, op, a, b = o
             if op in ("__sub__", "__isub__"):
